@@ -1,7 +1,6 @@
 package main
 
 import (
-	"regexp"
 	"bytes"
 	"fmt"
 	"go/ast"
@@ -11,6 +10,7 @@ import (
 	"go/types"
 	"math"
 	"math/big"
+	"regexp"
 	"sort"
 	"strings"
 
@@ -78,7 +78,7 @@ type Obl struct {
 	Text    string // source text of clause / expression
 	Inputs  []string
 	enc     *FnEnc
-	Trivial bool // cond folded to true syntactically
+	Trivial bool      // cond folded to true syntactically
 	Parts   []oblPart // optional split: the obligation holds iff every part does (solved separately)
 }
 
@@ -94,85 +94,85 @@ func bail(format string, a ...interface{}) {
 
 // FnEnc encodes one function (plus inlined callees) into SMT definitions and obligations.
 type FnEnc struct {
-	E     *Engine
-	Fn    *ssa.Function
-	Key   string
-	C     *FuncContract
-	R     *TypeReg
-	decls []string
-	ctr   int
-	obls  []*Obl
-	notes []string // assumptions used (assume_lib, havocked callees, ...)
+	E        *Engine
+	Fn       *ssa.Function
+	Key      string
+	C        *FuncContract
+	R        *TypeReg
+	decls    []string
+	ctr      int
+	obls     []*Obl
+	notes    []string // assumptions used (assume_lib, havocked callees, ...)
 	noteSeen map[string]bool
 
-	inputs []string // names of input constants (for models)
-	safetyCount map[string]int
-	allocCtr int
-	escaped  bool // a locally allocated reference may have reached the heap or a callee
-	escapedRefs []string // fresh references of this activation that may have escaped
-	escapedSeen map[string]bool
-	refAlias map[string][]string
-	refAxioms bool // emit the reference well-formedness axiom for unknown pointer-valued heap arrays
-	epochDeclared map[string]bool
-	atCallSeen    map[int]bool
+	inputs         []string // names of input constants (for models)
+	safetyCount    map[string]int
+	allocCtr       int
+	escaped        bool     // a locally allocated reference may have reached the heap or a callee
+	escapedRefs    []string // fresh references of this activation that may have escaped
+	escapedSeen    map[string]bool
+	refAlias       map[string][]string
+	refAxioms      bool // emit the reference well-formedness axiom for unknown pointer-valued heap arrays
+	epochDeclared  map[string]bool
+	atCallSeen     map[int]bool
 	globalFactSeen map[string]bool
 	nonNilGlobals  []string // terms of init-once pointer globals (pairwise distinct)
-	rawUsed  map[string]bool
-	fbits    map[string]string
-	heapTouch int
-	typeFacts map[string]bool
-	pendingLoads []SV // loaded interface values of which the assume_loads predicate is assumed
-	subOf    map[string][2]string // substring term -> (string it was cut from, offset)
-	gaddrs   map[string]bool
-	stableGlobals map[string]bool
-	specApps map[string]bool
-	rawOrder []string
-	usedContracts map[string]bool
-	top      *frame
-	prePC    string
-	pureCond string
-	preNDecls int
-	inputTypes []types.Type
-	depth    int
+	rawUsed        map[string]bool
+	fbits          map[string]string
+	heapTouch      int
+	typeFacts      map[string]bool
+	pendingLoads   []SV                 // loaded interface values of which the assume_loads predicate is assumed
+	subOf          map[string][2]string // substring term -> (string it was cut from, offset)
+	gaddrs         map[string]bool
+	stableGlobals  map[string]bool
+	specApps       map[string]bool
+	rawOrder       []string
+	usedContracts  map[string]bool
+	top            *frame
+	prePC          string
+	pureCond       string
+	preNDecls      int
+	inputTypes     []types.Type
+	depth          int
 }
 
 // frame is the per-function (or per-inlined-call) encoding state.
 type frame struct {
-	enc    *FnEnc
-	fn     *ssa.Function
-	prefix string
-	vals   map[ssa.Value]SV
-	reach  map[*ssa.BasicBlock]string
-	heapOut map[*ssa.BasicBlock]Heap
-	pcOut  map[*ssa.BasicBlock]string // path condition at end of block (reach ∧ assumptions)
+	enc       *FnEnc
+	fn        *ssa.Function
+	prefix    string
+	vals      map[ssa.Value]SV
+	reach     map[*ssa.BasicBlock]string
+	heapOut   map[*ssa.BasicBlock]Heap
+	pcOut     map[*ssa.BasicBlock]string // path condition at end of block (reach ∧ assumptions)
 	backEdges map[[2]int]bool
 	loopHeads map[int]*loopInfo
-	params  []SV
+	params    []SV
 	entryHeap Heap
 	// results
-	rets []retInfo
-	contract *FuncContract
-	curInstr ssa.Instruction // instruction being encoded (at_call clauses resolve locals to the value reaching it)
-	atCallCtx bool
-	inLibNote bool
-	parent *frame
-	isTop bool
-	namedVals map[string]ssa.Value // source-level names -> ssa value (params, phis with comments)
-	curBlock *ssa.BasicBlock
-	curHeap  Heap
-	curPC    string
-	curLoop  *loopInfo
-	defers   []deferRec
-	throws   []throwRec
-	variants map[int][]string
+	rets          []retInfo
+	contract      *FuncContract
+	curInstr      ssa.Instruction // instruction being encoded (at_call clauses resolve locals to the value reaching it)
+	atCallCtx     bool
+	inLibNote     bool
+	parent        *frame
+	isTop         bool
+	namedVals     map[string]ssa.Value // source-level names -> ssa value (params, phis with comments)
+	curBlock      *ssa.BasicBlock
+	curHeap       Heap
+	curPC         string
+	curLoop       *loopInfo
+	defers        []deferRec
+	throws        []throwRec
+	variants      map[int][]string
 	variantBounds map[int][]string
-	headHeaps map[int]Heap // heap at the head of loop k (current iteration), for athead(k, e)
-	locals   []localAlloc // non-escaping allocations: untouched by callees and havocs
+	headHeaps     map[int]Heap // heap at the head of loop k (current iteration), for athead(k, e)
+	locals        []localAlloc // non-escaping allocations: untouched by callees and havocs
 	ghostRetTypes map[int]types.Type
-	excs     []excState
-	inDeferred bool
-	calleePure string     // condition under which the call being applied is pure
-	inLoopHavoc bool
+	excs          []excState
+	inDeferred    bool
+	calleePure    string // condition under which the call being applied is pure
+	inLoopHavoc   bool
 }
 
 // wrote records a write to caller-visible memory; under a pure_if contract it is an
@@ -1349,6 +1349,62 @@ func (f *frame) backEdge(from, head *ssa.BasicBlock, succIdx int) {
 		c := f.evalContractBool(inv, f.curHeap, nil, nil)
 		f.oblige(fmt.Sprintf("inv.preserve@%d.%d", li.ord, i+1), "", c, inv.Text, token.NoPos)
 	}
+	if f.contract != nil && f.isTop {
+		// at_backedge@k: a per-iteration assertion in the state at the end of the iteration
+		// (locals of the body keep the values of this iteration; the loop's phis are the
+		// updated ones, so name the old value through the body's own variables)
+		for i, cl := range f.contract.BackEdges[li.ord] {
+			// a local names its value at the end of the iteration: the definition reaching
+			// the end of the block the back edge leaves from (resolved as at a call site)
+			saveInstr, saveCtx := f.curInstr, f.atCallCtx
+			if n := len(from.Instrs); n > 0 {
+				f.curInstr, f.atCallCtx = from.Instrs[n-1], true
+			}
+			// a local that is not computed on the way to this back edge stands for an
+			// arbitrary value (the clause has to hold whatever it is: its hypotheses must
+			// exclude such a path)
+			extra := map[string]SV{}
+			var c string
+			for try := 0; try < 8; try++ {
+				retry := ""
+				func() {
+					defer func() {
+						if r := recover(); r != nil {
+							if ce, isCE := r.(contractErr); isCE && strings.Contains(ce.msg, "unknown identifier") && f.isSourceVar(ce.msg) {
+								i := strings.Index(ce.msg, "\"")
+								j := i + 1 + strings.Index(ce.msg[i+1:], "\"")
+								retry = ce.msg[i+1 : j]
+								return
+							}
+							panic(r)
+						}
+					}()
+					c = f.evalContractBool(cl, f.curHeap, extra, nil)
+				}()
+				if retry == "" {
+					break
+				}
+				var vt types.Type
+				for _, b := range f.fn.Blocks {
+					for _, in := range b.Instrs {
+						if d, ok := in.(*ssa.DebugRef); ok && !d.IsAddr {
+							if id, ok := d.Expr.(*ast.Ident); ok && id.Name == retry && vt == nil {
+								vt = d.X.Type()
+							}
+						}
+					}
+				}
+				if vt == nil {
+					cfail("at_backedge: cannot type the local %q", retry)
+				}
+				n, _ := f.enc.havoc(f.prefix+"any_"+retry, vt)
+				extra[retry] = SV{t: vt, term: n}
+			}
+			f.curInstr, f.atCallCtx = saveInstr, saveCtx
+			f.oblige(fmt.Sprintf("backedge@%d.%d", li.ord, i+1), "", c, cl.Text, token.NoPos)
+			f.enc.obls[len(f.enc.obls)-1].Props = cl.Props
+		}
+	}
 	if f.contract != nil && (len(f.contract.Preserves) > 0 || len(f.contract.OnlyAt) > 0) && f.parent == nil {
 		f.frameOblige(fmt.Sprintf("inv.preserve@%d.frame", li.ord), "", "frame clauses (preserves / writes_only_at) hold at the loop head", f.curHeap, token.NoPos)
 	}
@@ -1531,7 +1587,8 @@ func (f *frame) havocLoopGhosts(li *loopInfo) {
 				cnt = bvLit(0, 64)
 			}
 			n := e.declare(e.fresh(ck+"!loop"), "(_ BitVec 64)")
-			f.assume(fmt.Sprintf("(bvsge %s %s)", n, cnt))
+			// monotone, and far from wrapping (a count of 2^62 calls cannot be reached)
+			f.assume(fmt.Sprintf("(and (bvsge %s %s) (bvslt %s #x4000000000000000))", n, cnt, n))
 			f.curHeap[ck] = n
 		}
 		for hk, sortS := range e.R.heapDecl {
@@ -1635,7 +1692,9 @@ func (f *frame) restoreLocals(old Heap, only map[string]bool) {
 }
 
 // rangeInv: for the hidden index phi of a range-over-slice/string loop
-//   i = phi(-1, i+1); if i+1 < n ...
+//
+//	i = phi(-1, i+1); if i+1 < n ...
+//
 // the invariant -1 <= i < n (n is computed before the loop).
 func (f *frame) rangeInv(li *loopInfo, phi *ssa.Phi, term string) string {
 	if phi.Comment != "rangeindex" {
